@@ -97,6 +97,9 @@ theorem run_exactly_once_partial {α σ ε : Type} (ss : List Stmt) (hist : List
   rw [Spec.unwind_calls ss exec _ _ _ hstay]
   simp
 
+example : (unwindView [⟨.always, false, 1, 1⟩, ⟨.cond, false, 0, 2⟩, ⟨.loop, false, 1, 3⟩] logExec
+    [(0, 1), (1, 0), (2, 0), (2, 1)] []).2.2 = none := by decide
+
 /-- **At most once, never reordered — unconditionally.** For every layout, every frame state (reachable or
     not), every behaviour of the deferred calls and every way the replay is entered: the nodes handed to
     deferred calls so far, followed by the nodes still on the list, are exactly the original list. So no
